@@ -3,6 +3,7 @@
 from __future__ import annotations
 
 import ast
+import re
 
 from .. import guards, util
 from ..cfg import CFG, describe_path
@@ -635,11 +636,26 @@ def c13_unsafe(R):
     m = tree.mod(RF)
     c = tree.cls(RF, "ReplacementFrontend")
     n = 0
-    for name, fn in util.methods_of(c).items():
+    ms = util.methods_of(c)
+    # the methods through which a replacement gets recorded: add_replacement and whatever reaches it inside the class
+    recorders = {"add_replacement"}
+    for _ in range(4):
+        for name, fn in ms.items():
+            if name not in recorders and any(isinstance(k.func, ast.Attribute) and ast.unparse(k.func.value) == "self" and k.func.attr in recorders for k in _calls(fn)):
+                recorders.add(name)
+    queries = ("eval", "batch_eval", "max", "min", "solution", "is_true", "is_false", "satisfiable", "eval_to_ast")
+    recorders -= set(queries) | {"_add", "add"}
+    for name, fn in ms.items():
+        if name not in queries:
+            continue
         for call in _calls(fn):
-            if isinstance(call.func, ast.Attribute) and call.func.attr == "_add_solve_result":
+            if isinstance(call.func, ast.Attribute) and ast.unparse(call.func.value) == "self" and call.func.attr in recorders:
                 n += 1
                 ok = any(ast.unparse(t) == "self._unsafe_replacement" and pol for t, pol in guards.guards_of(call))
+                if not ok and guards.dominated_by_empty(call, {"extra_constraints"}):
+                    # the one value of an enumeration that ran dry, about the constraint set itself, holds in every model
+                    hs = [re.sub(r"\s+", " ", h) for h in guards.holds(call)]
+                    ok = any(re.fullmatch(r"len\(\w+\) < n|n > len\(\w+\)", h) for h in hs) or (any(re.fullmatch(r"len\(\w+\) == 1", h) for h in hs) and any(h in ("n > 1", "1 < n", "n >= 2") for h in hs))
                 R.check(
                     ok,
                     m,
